@@ -1,5 +1,6 @@
 import JominiModel.Model.BinLexer
 import JominiModel.Model.BinReader
+import JominiModel.Spec.BinSkip
 /-
 Policy-parametric abstract model of the streaming binary reader.
 
@@ -129,6 +130,42 @@ def calls : Nat → AReader P → List Call × AReader P
       | (.error e, a') => (.err e.kind, a')
     let (cs, r) := calls n a'
     (c :: cs, r)
+
+/-- `advance_to(rest)` for a suffix `rest` of the window -/
+def advanceTo (a : AReader P) (rest : Bytes) : AReader P :=
+  let amt := a.window.length - rest.length
+  { a with window := rest, position := a.position + amt, st := P.onAdvance a.cap a.st a.window.length amt }
+
+/-- result of the inner `while let Ok(..) = read_id(window)` loop of `skip_container` -/
+inductive ScanRes (P : Policy)
+  | returned (a : AReader P)
+  | refill (a : AReader P) (depth : Nat)
+
+/-- the inner loop of `skip_container` (reader.rs:126-157) in terms of the lexeme at the head of the
+window (`Spec/BinSkip.lexeme`; the concrete `Reader.skipScan` is this loop, `scan_step`) -/
+def skipScan : Nat → AReader P → Nat → ScanRes P
+  | 0, a, depth => .refill a depth
+  | fuel + 1, a, depth =>
+    match lexeme a.window with
+    | none => .refill a depth
+    | some (id, rest) =>
+      if id = CLOSE ∧ depth - 1 = 0 then .returned (a.advanceTo rest)
+      else skipScan fuel (a.advanceTo rest) (depthAfter id depth)
+
+/-- `skip_container`'s outer loop -/
+def skipLoop : Nat → AReader P → Nat → Except ReaderError Unit × AReader P
+  | 0, a, _ => (.error { position := a.position, kind := .fuel }, a)
+  | fuel + 1, a, depth =>
+    match skipScan (a.window.length / 2 + 1) a depth with
+    | .returned a' => (.ok (), a')
+    | .refill a1 depth1 =>
+      match a1.fill with
+      | (.ok n, a') =>
+        if n = 0 then (.error { position := a'.position, kind := .lexer .eof }, a') else skipLoop fuel a' depth1
+      | (.error e, a') =>
+        (.error { position := a'.position, kind := match e with | .io => .read | .bufferFull => .bufferFull }, a')
+
+def skipContainer (a : AReader P) : Except ReaderError Unit × AReader P := skipLoop a.fuelFor a 1
 
 end AReader
 end Jomini.BinReader
